@@ -4,6 +4,7 @@ import (
 	"encoding/json"
 	"errors"
 	"fmt"
+	"reflect"
 
 	"github.com/jrhy/mast"
 	"pgregory.net/rapid"
@@ -27,7 +28,7 @@ type C16Case struct {
 	Probes []C16Probe  `json:"probes"`
 }
 
-var c16Ops = []string{"get", "get", "insert", "insert", "inserthigh", "insertlow", "insertlow", "update", "delete", "delete", "deletetop", "deletetop", "delabsent", "clone", "mutclone", "mutpersist", "getwrongtype", "getseq", "getseq", "openlegacy", "opentaller", "openbad", "cursor", "min", "max", "ceil", "forward", "backward", "seekfirst"}
+var c16Ops = []string{"get", "get", "insert", "insert", "inserthigh", "insertlow", "insertlow", "update", "delete", "delete", "deletetop", "deletetop", "delabsent", "clone", "mutclone", "mutpersist", "getwrongtype", "getkeysonly", "getkeysonly", "getseq", "getseq", "openlegacy", "opentaller", "openbad", "cursor", "min", "max", "ceil", "forward", "backward", "seekfirst"}
 
 func genC16(t *rapid.T, tier string) C16Case {
 	c := C16Case{Cfg: core.GenConfig(t, tier, core.GenOpts{Caches: []string{"none"}, Vals: []string{core.VInt, core.VString, core.VBytes, core.VPtr, core.VStruct, core.VNil, core.VTags}, BigOneIn: 8})}
@@ -313,6 +314,43 @@ func runC16(c C16Case, o *run.Obs) error {
 			// a root record as written before the node-format field existed (or one that went through JSON)
 			viaJSON := true
 			err = count("LoadMast of a root record that went through JSON", 1, func() error { _, e := w.Load(sr, nil, nil, viaJSON); return e })
+		case "getkeysonly":
+			// a read-only opening that names no value type (RemoteConfig without ValuesLike): lookups are still lookups,
+			// whatever destination the caller hands in
+			if m, _ := c.Cfg.Codec(); m != nil {
+				continue
+			}
+			rc := w.RemoteConfig(w.Store, nil)
+			rc.ValuesLike, rc.UnmarshalerUsesRegisteredTypes = nil, false
+			root := sr.Root
+			var km *mast.Mast
+			if e := count("LoadMast without ValuesLike", 1, func() error { var e error; km, e = root.LoadMast(core.Ctx, rc); return e }); e != nil {
+				if e == errAbort {
+					continue // such an opening being refused is not this property's subject
+				}
+				return e
+			}
+			k2 := key
+			if pk, ok := present(); ok && pr.K%4 != 0 {
+				k2 = w.Pool[pk]
+			}
+			var dst interface{}
+			if zv := c.Cfg.ZeroVal(); zv != nil && pr.K%3 != 0 {
+				dst = reflect.New(reflect.TypeOf(zv)).Interface()
+			} else if pr.K%3 == 0 {
+				var v interface{}
+				dst = &v
+			} else {
+				var typed string
+				dst = &typed
+			}
+			mark := w.Store.Mark()
+			_ = core.Safely("Get", func() error { _, e := km.Get(core.Ctx, k2, dst); return e })
+			n := countLoads(w, mark)
+			w.Store.TrimLog()
+			if n > h+1 {
+				err = fmt.Errorf("%s: on an opening without ValuesLike Get(%v, %T) read %d nodes, bound is %d", desc, k2, dst, n, h+1)
+			}
 		case "getwrongtype":
 			// a lookup with a key of another type than the tree's keys: whatever it answers, it is a lookup
 			var wrong interface{}
